@@ -3,57 +3,9 @@
    agree with that spelling, the parser returns the tree up to positions and printing the result gives the same text. *)
 From Verif Require Import Base.Bytes Tree.Tree Tree.Printer Parse.ExprModel Parse.ExprFacts Parse.Spell Parse.Respell Parse.Render
                           Parse.TypeModel Parse.TypeProofs Parse.TypeRespell Parse.TypeRender Gen.Schema Gen.PrintProg.
+From Verif Require Export Parse.TypeSpell.
 From Coq Require Import Lia.
 Local Open Scope Z_scope.
-
-Notation erase0 := (erase_ty (fun b => b)).
-
-(* ---------- the spelling of a type tree (positions ignored) ---------- *)
-Definition zfield_name (oi : option ident) : toks := match oi with Some i => [t_ident (id_name i)] | None => [] end.
-
-Fixpoint zspell (t : ty) : toks :=
-  match t with
-  | TSimple _ n => [t_ident n]
-  | TNamed ids => match ids with i :: r => t_ident (id_name i) :: path_tail r | [] => [] end
-  | TArray _ _ it => tk "ARRAY" :: tk "<" :: zspell it ++ [tk ">"]
-  | TStruct _ _ fs =>
-      match fs with
-      | [] => [tk "STRUCT"; tk "<>"]
-      | (oi, x) :: r =>
-          tk "STRUCT" :: tk "<" :: zfield_name oi ++ zspell x ++
-          (fix go (l : list (option ident * ty)) : toks :=
-             match l with [] => [] | (oj, y) :: l' => tk "," :: zfield_name oj ++ zspell y ++ go l' end) r ++ [tk ">"]
-      end
-  end.
-
-Definition zfield (f : option ident * ty) : toks := zfield_name (fst f) ++ zspell (snd f).
-Fixpoint zmore (l : list (option ident * ty)) : toks := match l with [] => [] | f :: l' => tk "," :: zfield f ++ zmore l' end.
-
-Lemma go_zmore fs :
-  (fix go (l : list (option ident * ty)) : toks :=
-     match l with [] => [] | (oj, y) :: l' => tk "," :: zfield_name oj ++ zspell y ++ go l' end) fs = zmore fs.
-Proof.
-  induction fs as [|[oj y] r IH]; [reflexivity|]. cbn [zmore]. unfold zfield. cbn [fst snd]. rewrite IH, <- app_assoc. reflexivity.
-Qed.
-
-Lemma zspell_struct a b f fs : zspell (TStruct a b (f :: fs)) = tk "STRUCT" :: tk "<" :: zfield f ++ zmore fs ++ [tk ">"].
-Proof.
-  destruct f as [oi x]. cbn [zspell]. rewrite go_zmore. unfold zfield. cbn [fst snd]. rewrite <- app_assoc. reflexivity.
-Qed.
-
-(* ---------- well-formed type trees: what the parser can return ---------- *)
-Definition canonical_simple (n : bytes) : bool := match simple_name (t_ident n) with Some m => bytes_eqb m n | None => false end.
-
-Fixpoint wf_tyb (t : ty) : bool :=
-  match t with
-  | TSimple _ n => canonical_simple n
-  | TNamed ids => match ids with i :: _ => match simple_name (t_ident (id_name i)) with None => true | Some _ => false end | [] => false end
-  | TArray _ _ it => wf_tyb it
-  | TStruct _ _ fs => (fix go (l : list (option ident * ty)) : bool := match l with [] => true | (_, x) :: r => wf_tyb x && go r end) fs
-  end.
-
-Lemma wf_struct a b fs : wf_tyb (TStruct a b fs) = forallb (fun f => wf_tyb (snd f)) fs.
-Proof. cbn [wf_tyb]. induction fs as [|[oi x] r IH]; [reflexivity|]. cbn [forallb snd]. rewrite <- IH. reflexivity. Qed.
 
 (* what may follow a type: not a dot (it would extend a dotted name) and not the start of a type (a preceding single name would be read
    as a field name) *)
